@@ -983,6 +983,9 @@ where
             let mut buf = PacketIdType::Buffer::default();
             buf.as_mut()
                 .copy_from_slice(&data_arc[cursor..cursor + buffer_size]);
+            if buf.as_ref().iter().all(|&b| b == 0) {
+                return Err(MqttError::MalformedPacket);
+            }
             cursor += buffer_size;
             Some(buf)
         } else {
